@@ -134,13 +134,10 @@ func init() {
 		w := newWorld(encKey, sigKey, nil)
 		ks := w.open(tb)
 		var ring api.MutableKeyRing
-		for _, o := range ops {
-			if o.kind != 'R' {
-				ring, err = ks.OpenKeyRingRW(path)
-				if err != nil {
-					return "child-error:" + err.Error()
-				}
-				break
+		if (threadSpec{ops: ops}).preopened() {
+			ring, err = ks.OpenKeyRingRW(path)
+			if err != nil {
+				return "child-error:" + err.Error()
 			}
 		}
 		// rendezvous: all children have opened their rings before anyone starts
@@ -159,17 +156,25 @@ func init() {
 		res := ""
 		for _, o := range ops {
 			var err error
-			switch o.kind {
-			case 'A':
-				_, err = ring.AddKey(symDescription(material(o.data)))
-			case 'C':
-				err = ring.SetCurrent(o.seq)
-			case 'S':
-				err = ring.SetState(o.seq, api.KeyState(o.st))
-			case 'D':
-				err = ring.DestroyKey(o.seq)
-			case 'R':
+			switch {
+			case o.kind == 'O':
+				var nr api.MutableKeyRing
+				nr, err = ks.OpenKeyRingRW(path)
+				if err == nil {
+					ring = nr
+				}
+			case o.kind == 'R':
 				_, err = ks.OpenKeyRing(path)
+			case ring == nil:
+				err = errNotOpen
+			case o.kind == 'A':
+				_, err = ring.AddKey(symDescription(material(o.data)))
+			case o.kind == 'C':
+				err = ring.SetCurrent(o.seq)
+			case o.kind == 'S':
+				err = ring.SetState(o.seq, api.KeyState(o.st))
+			case o.kind == 'D':
+				err = ring.DestroyKey(o.seq)
 			}
 			if err == nil {
 				res += "1"
@@ -206,6 +211,9 @@ func runProcs(sc scenario) *outcome {
 	setup := w.open(setupInner)
 	nextID := 1
 	for p, keys := range sc.rings {
+		if sc.isMissing(p) {
+			continue
+		}
 		ring, err := setup.OpenKeyRingRW(paths[p])
 		if err != nil {
 			panic("harness: " + err.Error())
@@ -228,6 +236,9 @@ func runProcs(sc scenario) *outcome {
 	}
 	readRing := func(p int) absRing {
 		data, err := setupInner.Get(paths[p] + ".keyring")
+		if err == backendAPI.ErrNotExist {
+			return absRing{missing: true, current: -1}
+		}
 		if err != nil {
 			panic("harness: " + err.Error())
 		}
